@@ -2,6 +2,7 @@ package commands
 
 import (
 	"os"
+	"path"
 
 	"github.com/git-lfs/git-lfs/v3/git"
 	"github.com/git-lfs/git-lfs/v3/tr"
@@ -40,6 +41,16 @@ func postCommitCommand(cmd *cobra.Command, args []string) {
 	if err != nil {
 		LoggedError(err, tr.Tr.Get("Warning: post-commit failed: %v", err))
 		os.Exit(1)
+	}
+	// A changed attributes file may have made files lockable (or no longer
+	// so) that did not change themselves: everything has to be looked at.
+	for _, f := range files {
+		if path.Base(f) == ".gitattributes" {
+			if err := lockClient.FixAllLockableFileWriteFlags(); err != nil {
+				LoggedError(err, tr.Tr.Get("Warning: post-commit locked file check failed: %v", err))
+			}
+			return
+		}
 	}
 	tracerx.Printf("post-commit: checking write flags on %v", files)
 	err = lockClient.FixLockableFileWriteFlags(files)
